@@ -249,7 +249,7 @@ H_EFlow(s, r, l) ==
            lo == y.fBase + Max(0, y.fWired - y.fN)
            hi == y.fBase + y.fN + y.fSends
            drained == y.drainOwed /\ f.lc = 0 /\ f.dc >= y.limit /\ f.dc >= lo /\ (f.dc = y.limit \/ f.dc <= hi)
-           y2 == [y EXCEPT !.drainOwed = IF drained THEN FALSE ELSE @, !.dcS = IF drained THEN Max(y.dcS, y.limit) ELSE @, !.echoOwed = FALSE,
+           y2 == [y EXCEPT !.drainOwed = IF drained THEN FALSE ELSE @, !.dcS = IF drained THEN Max(y.dcS, y.limit - y.owed) ELSE @, !.echoOwed = FALSE,   \* (deliveries that hold credit but are not on the wire yet are inside the drained count: they add themselves when they start)
                            !.fBase = f.dc, !.fN = notStarted, !.fWired = 0, !.fSends = 0]
        IN R(SetL(s, k, y2), fs + Chk("C08_OnePerDelivery", (f.dc >= lo /\ f.dc <= hi) \/ drained, l, ""))
   ELSE \* the delivery-count a receiver reports is the sender's count as learnt, advanced by the deliveries it has taken in:
@@ -397,7 +397,8 @@ H_PFlow(s, r, l) ==
        \* (limRel: the flow left the delivery-count unset, so its limit is relative to the sender's initial delivery-count -- which, on a link the
        \*  peer started, the endpoint states only in its answering attach)
        R(SetL(s2, k, [y EXCEPT !.limit = lim, !.limRel = IF f.dc >= 0 THEN -1 ELSE Max(f.lc, 0), !.drainOwed = f.drain, !.echoOwed = (@ \/ f.echo),
-                                !.owed = Max(@, Min(Cardinality({n \in DOMAIN y.sendq : y.sendq[n].did = -1}), Max(0, lim - y.dcS)))]), 0)
+                                \* (a flow that asks for a drain hands no credit to sends that are waiting for it: the endpoint may give all of it back)
+                                !.owed = IF f.drain THEN @ ELSE Max(@, Min(Cardinality({n \in DOMAIN y.sendq : y.sendq[n].did = -1}), Max(0, lim - y.dcS)))]), 0)
   \* the sender states its delivery-count: everything it has sent has arrived (dcR); deliveries that have arrived but have not been
   \* handed to the application yet stay that many behind (dcGot).  sflowGap remembers that such a flow overtook queued deliveries.
   ELSE R(SetL(s2, k, [y EXCEPT !.dcR = IF f.dc >= 0 THEN f.dc ELSE @, !.dcGot = IF f.dc >= 0 THEN f.dc - (y.dcR - y.dcGot) ELSE @,
